@@ -16,7 +16,15 @@
 #include <stdint.h>
 
 #include <osmocom/core/msgb.h>
+#ifdef TARGET_VARIANT
+/* sercomm.c built without HOST_BUILD (256-octet receive buffer, IRQ lock macros stubbed) */
+#include <comm/sercomm.h>
+#include <uart.h>
+static unsigned long uart_irq_enables;
+void uart_irq_enable(uint8_t uart, enum uart_irq irq, int on) { uart_irq_enables++; }
+#else
 #include <sercomm.h>
+#endif
 
 void osmo_panic(const char *fmt, ...)
 {
